@@ -57,10 +57,9 @@ class H2Peer:
         self.error = None
 
     def start(self):
-        if self.initial_settings:
-            for k, v in self.initial_settings.items():
-                self.h2.local_settings[k] = v
         self.h2.initiate_connection()
+        if self.initial_settings:
+            self.h2.update_settings(self.initial_settings)  # a second SETTINGS frame right after the preface
         self.flush()
 
     def outgoing(self) -> bytes:
